@@ -1,5 +1,6 @@
 """C09 — mock parameter values compare by mathematical value (PARTITION over tag pairs + RANGE over cast chains).
 DESIGN.md section 4, C09."""
+import os
 import re
 from .common import *
 from cpv.ranges import type_range, cast_chain, apply_chain
@@ -118,10 +119,101 @@ def narrow(prog, g, leaf, member, rng, truth=True):
     return (lo, hi)
 
 
-def integer_equality_rules(prog, run, rid1, rid2, rid3):
-    """R1-R3 (shared with C08): the comparison equals() selects for every ordered pair of integer tags, folded over
-    boundary values and 2^32/2^64 aliases, is true exactly for mathematically equal stored integers.
-    Returns (boundary, tab, eq, pname, returns_for) for the rules that build on it."""
+INT_MEMBERS = ["intValue_", "unsignedIntValue_", "longIntValue_", "unsignedLongIntValue_", "longLongIntValue_", "unsignedLongLongIntValue_", "boolValue_"]
+
+
+def boundary(lo, hi, full=True):
+    vs = set()
+    for base in ((0, 1 << 7, 1 << 8, 1 << 15, 1 << 16, 1 << 31, 1 << 32, 1 << 63, 1 << 64) if full else (0, 1 << 31, 1 << 32, 1 << 63, 1 << 64)):
+        for d in ((-2, -1, 0, 1, 2, 5) if full else (-1, 0, 1)):
+            vs |= {base + d, -base + d}
+    vs |= {lo, lo + 1, hi, hi - 1, 42, -42}
+    return sorted(v for v in vs if lo <= v <= hi)
+
+
+def aliases(v, lo, hi):
+    """values of the other operand's type that a lossy conversion would confuse with v"""
+    out = set()
+    for k in (32, 64):
+        for m in (-2, -1, 1, 2):
+            out.add(v + m * (1 << k))
+        out.add(v & ((1 << k) - 1))
+        out.add((v & ((1 << k) - 1)) - (1 << k))
+    return {x for x in out if lo <= x <= hi}
+
+
+_EQ = {}
+
+
+def _fold_int_pair(job):
+    """worker: equals() folded whole on (stored t1 = v1, stored t2 = v2) for the value pairs of one tag pair"""
+    t1, t2, full = job
+    prog, eq, pname, tab, inl = _EQ["prog"], _EQ["eq"], _EQ["pname"], _EQ["tab"], _EQ["inl"]
+    m1, c1 = tab[t1][0], tab[t1][1]
+    m2, c2 = tab[t2][0], tab[t2][1]
+    r1, r2 = type_range(prog, c1), type_range(prog, c2)
+    res = {"n": 0, "true_seen": False, "unequal_accepted": None, "unknown": None, "equal_missed": None}
+    hooks = string_hooks({})
+    members = []
+    for t in INT_TAGS:
+        lo, hi = type_range(prog, tab[t][1])
+        members.append((tab[t][0], lo < 0, (hi - lo).bit_length()))
+    w1, w2 = (r1[1] - r1[0]).bit_length(), (r2[1] - r2[0]).bit_length()
+
+    def cells(prefix, v, width, garbage):
+        """the union really aliases: the integer members of one side are views of the same 8 bytes (little endian);
+        the bytes a narrower store leaves untouched hold `garbage`"""
+        raw = (v & ((1 << width) - 1)) | ((garbage << width) & ((1 << 64) - 1) if width < 64 else 0)
+        out = {}
+        for m, signed, w in members:
+            x = raw & ((1 << w) - 1)
+            out[prefix + m] = x - (1 << w) if signed and x >> (w - 1) else x
+        out[prefix + "boolValue_"] = 1 if raw & 0xff else 0
+        for m in ("pointerValue_", "constPointerValue_", "objectPointerValue_", "constObjectPointerValue_", "outputPointerValue_"):
+            out[prefix + m] = raw
+        return out
+    garbages = (0, 0xFFFFFFFF, 0x5A5AA5A5) if (w1 < 64 or w2 < 64) else (0,)
+    for v1 in boundary(*r1, full=full):
+        if full:
+            S2 = set(boundary(*r2)) | aliases(v1, *r2)
+        else:
+            S2 = aliases(v1, *r2) | {x for x in (v1 - 1, v1 + 1, r2[0], r2[1], 0) if r2[0] <= x <= r2[1]}
+        if r2[0] <= v1 <= r2[1]:
+            S2.add(v1)
+        for v2 in sorted(S2):
+            same = v1 == v2
+            for gi, garbage in enumerate(garbages):
+                env = {"type_": ("str", t1), pname + ".type_": ("str", t2)}
+                env.update(cells("value_.", v1, w1, garbage))
+                env.update(cells(pname + ".value_.", v2, w2, garbages[(gi + 1) % len(garbages)]))
+                ev = Evaluator(prog, eq, env=env, calls=hooks)
+                ev.pass_object = True
+                ev.inline = inl
+                try:
+                    ev.run_blocks(eq.entry, max_steps=4000)
+                    got = getattr(ev, "ret", None)
+                    if not isinstance(got, int):
+                        raise Unknown("returns %r" % (got,))
+                except Unknown as u:
+                    res["unknown"] = res["unknown"] or "%s (stored %d and %d)" % (u, v1, v2)
+                    continue
+                res["n"] += 1
+                if got:
+                    res["true_seen"] = True
+                if bool(got) != same:
+                    k_ = "equal_missed" if same else "unequal_accepted"
+                    if res[k_] is None:
+                        res[k_] = (v1, v2)
+    return (t1, t2), res
+
+
+def integer_equality_rules(prog, run, rid1, rid2, rid3, thorough=False):
+    """R1-R3 (shared with C08): MockNamedValue::equals folded whole (every member of the class inlined) on every
+    ordered pair of integer tags over boundary values and their 2^32/2^64 aliases: true exactly for mathematically
+    equal stored integers. The integer members of each side are views of the same 8 bytes, as in the real union, and
+    the bytes a 32-bit store leaves untouched are tried with three garbage patterns, so reading another member than
+    the one the tag stores gives the answer the real code would give."""
+    import multiprocessing
     eq = prog.fn("MockNamedValue::equals")
     run.analysed(eq)
     pname = eq.params[0]["name"]
@@ -129,85 +221,39 @@ def integer_equality_rules(prog, run, rid1, rid2, rid3):
     missing = [t for t in INT_TAGS + OTHER_TAGS if t not in tab]
     if missing:
         raise AnalysisBroken("tag table incomplete: no setValue overload found for %s" % missing)
-
-    def returns_for(t1, t2):
-        rets = {}
-        for p in enumerate_paths(eq, decide=make_decider(t1, t2, pname), stop=lambda f, n: False):
-            if p.ret is not None:
-                rets[p.ret["id"]] = p.ret
-            else:
-                rets[-1] = None
-        return list(rets.values())
-    # ---------------- R1/R2/R3 -------------------------------------------------
-    def boundary(lo, hi):
-        vs = set()
-        for base in (0, 1 << 7, 1 << 8, 1 << 15, 1 << 16, 1 << 31, 1 << 32, 1 << 63, 1 << 64):
-            for d in (-2, -1, 0, 1, 2, 5):
-                vs |= {base + d, -base + d}
-        vs |= {lo, lo + 1, hi, hi - 1, 42, -42}
-        return sorted(v for v in vs if lo <= v <= hi)
-
-    def aliases(v, lo, hi):
-        """values of the other operand's type that a lossy conversion would confuse with v"""
-        out = set()
-        for k in (32, 64):
-            for m in (-2, -1, 1, 2):
-                out.add(v + m * (1 << k))
-            out.add(v & ((1 << k) - 1))
-            out.add((v & ((1 << k) - 1)) - (1 << k))
-        return {x for x in out if lo <= x <= hi}
+    inl = {g.qn for g in prog.functions.values() if g.qn.startswith("MockNamedValue::")}
+    for g in prog.functions.values():
+        if g.qn in inl and g.name.lower().startswith("equals"):
+            run.analysed(g)
+    _EQ.update({"prog": prog, "eq": eq, "pname": pname, "tab": tab, "inl": inl})
+    jobs = [(t1, t2, thorough) for t1 in INT_TAGS for t2 in INT_TAGS]
+    try:
+        with multiprocessing.get_context("fork").Pool(min(16, os.cpu_count() or 1)) as pool:
+            results = dict(pool.map(_fold_int_pair, jobs, chunksize=1))
+    except (OSError, ValueError):
+        results = dict(_fold_int_pair(j) for j in jobs)
     for t1 in INT_TAGS:
         for t2 in INT_TAGS:
             inst = "%s vs %s" % (t1, t2)
-            rets = returns_for(t1, t2)
-            if len(rets) != 1 or rets[0] is None:
-                run.ob(rid1, inst, eq.site, False, what="pair does not select a single return statement", witness=[render(eq, r) if r else None for r in rets])
+            r = results[(t1, t2)]
+            m1, m2 = tab[t1][0], tab[t2][0]
+            if r["unknown"]:
+                run.broke("C09: equals cannot be folded for %s: %s" % (inst, r["unknown"]))
                 continue
-            E = eq.node(rets[0].get("value"))
-            txt = render(eq, E)
-            m1, c1 = tab[t1][0], tab[t1][1]
-            m2, c2 = tab[t2][0], tab[t2][1]
-            r1, r2 = type_range(prog, c1), type_range(prog, c2)
-            S1 = boundary(*r1)
-            foreign, wrong, never_true = None, None, True
-            ncmp = 0
-            for v1 in S1:
-                S2 = sorted(set(boundary(*r2)) | aliases(v1, *r2) | ({v1} if r2[0] <= v1 <= r2[1] else set()))
-                for v2 in S2:
-                    ev = Evaluator(prog, eq, env={"value_." + m1: v1, "%s.value_.%s" % (pname, m2): v2})
-                    try:
-                        got = ev.ev(E)
-                    except Unknown as u:
-                        foreign = foreign or str(u)
-                        continue
-                    ncmp += 1
-                    if got:
-                        never_true = False
-                    if bool(got) != (v1 == v2) and wrong is None:
-                        wrong = (v1, v2, bool(got))
-                if foreign:
-                    break
-            if foreign:
-                fm = re.search(r"value_\.(\w+)", foreign)
-                if fm and not const_value(eq, E) == 0:
-                    run.ob(rid1, inst, eq.site, True, witness=txt)
-                    run.ob(rid2, inst, eq.site, False, witness={"expr": txt, "members": {"this": m1, "other": m2}},
-                           what="the comparison reads %s; the tags store into value_.%s and %s.value_.%s" % (foreign, m1, pname, m2))
-                else:
-                    run.broke("C09: the comparison selected for %s cannot be folded: %s (%s)" % (inst, foreign, txt))
+            if not r["true_seen"]:
+                run.ob(rid1, inst, eq.site, False, witness={"pairs_folded": r["n"]}, what="no comparison of the two stored integers is selected for this type pair: equal values never compare equal (falls through to `different type`), or the comparison reads other union members than value_.%s / %s.value_.%s" % (m1, pname, m2))
                 continue
-            if never_true:
-                run.ob(rid1, inst, eq.site, False, witness=txt, what="no comparison of the two stored integers is selected for this type pair (falls through to %s)" % txt)
-                continue
-            run.ob(rid1, inst, eq.site, True, witness=txt)
-            run.ob(rid2, inst, eq.site, True, witness={"expr": txt, "members": {"this": m1, "other": m2}})
+            run.ob(rid1, inst, eq.site, True, witness={"pairs_folded": r["n"]})
             why = ""
-            if wrong:
-                v1, v2, g = wrong
-                why = "stored %s %d and %s %d compare %s: a conversion on the way is not value-preserving (or a sign guard is missing / misplaced): different integers can compare equal" % (t1, v1, t2, v2, "equal" if g else "different")
-            run.ob(rid3, inst, eq.site, not why, witness={"expr": txt, "pairs_folded": ncmp}, what=why)
-
-    return boundary, tab, eq, pname, returns_for
+            if r["equal_missed"]:
+                why = "stored %s %d and %s %d compare different: a guard rejects a representable value, a conversion is not value-preserving, or another union member than value_.%s / %s.value_.%s is read" % (t1, r["equal_missed"][0], t2, r["equal_missed"][1], m1, pname, m2)
+            run.ob(rid2, inst, eq.site, not why, witness={"members": {"this": m1, "other": m2}, "pairs_folded": r["n"]}, what=why)
+            why = ""
+            if r["unequal_accepted"]:
+                v1, v2 = r["unequal_accepted"]
+                why = "stored %s %d and %s %d compare equal: a conversion on the way is not value-preserving (or a sign guard is missing / misplaced), or another union member is read" % (t1, v1, t2, v2)
+            run.ob(rid3, inst, eq.site, not why, witness={"pairs_folded": r["n"]}, what=why)
+    return tab, eq, pname
 
 
 def check(ctx, run):
@@ -216,62 +262,90 @@ def check(ctx, run):
     run.assume("usual arithmetic conversions are exactly the implicit casts clang recorded in the AST")
     run.not_decided.append("string content comparison (SimpleString operator==, C13) and MemCmp semantics over all byte strings")
     run.rule("R1", "PARTITION: every ordered pair of integer tags selects a comparing branch (no pair falls through to `different type => false`)", floor=36, exhaustive=True)
-    run.rule("R2", "TABLE: the union member read for a side is the member its tag was stored in (tag table extracted from the setValue overloads)", floor=36)
-    run.rule("R3", "the comparison selected for a tag pair, folded (helpers inlined) over the boundary values of both types and their 2^32/2^64 aliases, is true exactly when the two stored integers are mathematically equal", floor=36, exhaustive=True)
+    run.rule("R2", "TABLE: equals folded whole on equal integers stored in the tags' own union members (tag table extracted from the setValue overloads) answers equal although every other union member differs on the two sides", floor=36)
+    run.rule("R3", "equals folded whole (class members inlined) over the boundary values of both types and their 2^32/2^64 aliases never answers equal for two mathematically different stored integers, although the other union members hold equal values", floor=36, exhaustive=True)
     run.rule("R4", "getters: for every (getter, stored tag) the value is returned through value-preserving conversions of the tag's own member, or the path passes STRCMP_EQUAL(own tag, type) which fails the test", floor=36, exhaustive=True)
     run.rule("R5", "non-integer kinds: different tags never compare equal; bool/pointer/function pointer compare their own members; double passes (this, other, this tolerance) to doubles_equal; buffers compare size before MemCmp with that size", floor=40)
 
-    boundary, tab, eq, pname, returns_for = integer_equality_rules(prog, run, "R1", "R2", "R3")
+    tab, eq, pname = integer_equality_rules(prog, run, "R1", "R2", "R3", thorough=ctx.thorough)
 
     # ---------------- R5 ---------------------------------------------------------
+    # equals() folded whole (every MockNamedValue member inlined, so helpers are transparent) on two model values. All
+    # union members are separate cells in the model, which lets the fold see WHICH member a comparison reads.
+    MEMBERS = ["boolValue_", "intValue_", "unsignedIntValue_", "longIntValue_", "unsignedLongIntValue_", "longLongIntValue_", "unsignedLongLongIntValue_",
+               "doubleValue_.value", "doubleValue_.tolerance", "pointerValue_", "constPointerValue_", "functionPointerValue_", "memoryBufferValue_",
+               "constObjectPointerValue_", "objectPointerValue_", "outputPointerValue_"]
+    NVINL = {g.qn for g in prog.functions.values() if g.qn.startswith("MockNamedValue::")}
+
+    def fold_equals(t1, t2, mine, other, own_members, others_equal, sizes=(3, 3), comparator=500, memcmp=0, dbl=1, cmp=1):
+        """own_members get (mine, other); every other member is equal on both sides (others_equal) or different"""
+        env = {"type_": ("str", t1), pname + ".type_": ("str", t2), "size_": sizes[0], pname + ".size_": sizes[1], "comparator_": comparator, pname + ".comparator_": comparator}
+        for i_, m in enumerate(MEMBERS):
+            if m in own_members:
+                env["value_." + m], env["%s.value_.%s" % (pname, m)] = mine, other
+            else:
+                env["value_." + m], env["%s.value_.%s" % (pname, m)] = 1000 + i_, (1000 + i_ if others_equal else 2000 + i_)
+        env["value_.stringValue_"], env[pname + ".value_.stringValue_"] = ("str", "same"), ("str", "same" if others_equal else "differs")
+        if "stringValue_" in own_members:
+            env["value_.stringValue_"], env[pname + ".value_.stringValue_"] = mine, other
+        seen = []
+        hooks = string_hooks({"doubles_equal": lambda *a_: (seen.append(("doubles_equal",) + tuple(a_)), dbl)[1],
+                              "SimpleString::MemCmp": lambda *a_: (seen.append(("MemCmp",) + tuple(a_)), memcmp)[1],
+                              "MockNamedValueComparator::isEqual": lambda *a_: (seen.append(("isEqual",) + tuple(a_)), cmp)[1]})
+        ev = Evaluator(prog, eq, env=env, calls=hooks)
+        ev.pass_object = True
+        ev.inline = NVINL
+        ev.run_blocks(eq.entry, max_steps=4000)
+        r = getattr(ev, "ret", None)
+        if not isinstance(r, int):
+            raise Unknown("equals returns %r" % (r,))
+        return r, seen
     alltags = INT_TAGS + OTHER_TAGS + ["MyType"]
-    for t1 in alltags:
-        for t2 in alltags:
-            if t1 in INT_TAGS and t2 in INT_TAGS:
-                continue
-            if t1 == t2:
-                continue
-            rets = returns_for(t1, t2)
-            vals = [const_value(eq, eq.node(r.get("value"))) if r is not None and r.get("value") is not None else None for r in rets]
-            ok = bool(vals) and all(v == 0 for v in vals)
-            run.ob("R5", "%s vs %s never equal" % (t1, t2), eq.site, ok, witness=[render(eq, r) if r else None for r in rets],
-                   what="" if ok else "values of different non-integer types can compare equal")
-    same = {"bool": "(value_.boolValue_ == %s.value_.boolValue_)", "void*": "(value_.pointerValue_ == %s.value_.pointerValue_)",
-            "const void*": "(value_.constPointerValue_ == %s.value_.constPointerValue_)", "void (*)()": "(value_.functionPointerValue_ == %s.value_.functionPointerValue_)"}
-    for t, exp in same.items():
-        rets = returns_for(t, t)
-        got = [rx(eq, eq.node(r.get("value"))) for r in rets if r is not None]
-        a_, b_ = (exp % pname)[1:-1].split(" == ")
-        ok = got in ([exp % pname], ["(%s == %s)" % (b_, a_)])
-        run.ob("R5", "%s compares its own member by identity" % t, eq.site, ok, witness=got)
-    rets = returns_for("const char*", "const char*")
-    got = [rx(eq, eq.node(r.get("value"))) for r in rets if r is not None]
-    ok = got in (["(SimpleString(value_.stringValue_) == SimpleString(%s.value_.stringValue_))" % pname], ["(SimpleString(%s.value_.stringValue_) == SimpleString(value_.stringValue_))" % pname])
-    run.ob("R5", "strings compare by content", eq.site, ok, witness=got)
-    rets = returns_for("double", "double")
-    got = [rx(eq, eq.node(r.get("value"))) for r in rets if r is not None]
-    ok = got == ["doubles_equal(value_.doubleValue_.value, %s.value_.doubleValue_.value, value_.doubleValue_.tolerance)" % pname]
-    run.ob("R5", "doubles: (this value, other value, THIS tolerance) -> doubles_equal (NaN/Inf classes decided in C03.R2)", eq.site, ok, witness=got,
-           what="" if ok else "the expectation's own tolerance is not what reaches doubles_equal")
-    # expectation is the receiver: hasInputParameter calls equals on the expectation's stored value
-    # memory buffers
-    paths = enumerate_paths(eq, decide=make_decider("const unsigned char*", "const unsigned char*", pname), stop=lambda f, n: False)
-    okb = True
-    wit = []
-    for p in paths:
-        val = origin_val(eq, p)
-        sz = [v for k, v in val.items() if k in ("(size_ == %s.size_)" % pname, "(%s.size_ == size_)" % pname)]
-        r = rx(eq, eq.node(p.ret.get("value"))) if p.ret is not None else None
-        wit.append({"cond": p.describe(eq), "returns": r})
-        # atom key is "(p.size_ == size_)" with polarity
-        if sz == [False]:
-            okb = okb and const_value(eq, eq.node(p.ret.get("value"))) == 0
-        elif sz == [True]:
-            okb = okb and r in ("(SimpleString::MemCmp(value_.memoryBufferValue_, %s.value_.memoryBufferValue_, size_) == 0)" % pname,
-                                "(SimpleString::MemCmp(value_.memoryBufferValue_, %s.value_.memoryBufferValue_, %s.size_) == 0)" % (pname, pname))
-        else:
-            okb = False
-    run.ob("R5", "buffers: sizes compared first, then MemCmp over that size", eq.site, okb and len(paths) == 2, witness=wit)
+    try:
+        for t1 in alltags:
+            for t2 in alltags:
+                if (t1 in INT_TAGS and t2 in INT_TAGS) or t1 == t2:
+                    continue
+                # adversarial model: every member, the sizes, the strings are equal on both sides and every helper answers "equal"
+                r, seen = fold_equals(t1, t2, 0, 0, (), True)
+                run.ob("R5", "%s vs %s never equal" % (t1, t2), eq.site, r == 0, witness={"folded": r, "helpers asked": [x[0] for x in seen]},
+                       what="" if r == 0 else "values of different non-integer types can compare equal")
+        for t, m in (("bool", "boolValue_"), ("void*", "pointerValue_"), ("const void*", "constPointerValue_"), ("void (*)()", "functionPointerValue_")):
+            r1_, _ = fold_equals(t, t, 1 if t == "bool" else 71, 1 if t == "bool" else 71, (m,), False)
+            r2_, _ = fold_equals(t, t, 1 if t == "bool" else 71, 0 if t == "bool" else 72, (m,), True)
+            run.ob("R5", "%s compares its own member by identity" % t, eq.site, (r1_, r2_) == (1, 0), witness={"own equal, all other members differ": r1_, "own differ, all other members equal": r2_})
+        r1_, _ = fold_equals("const char*", "const char*", ("str", "hello"), ("str", "hello"), ("stringValue_",), False)
+        r2_, _ = fold_equals("const char*", "const char*", ("str", "hello"), ("str", "hellp"), ("stringValue_",), True)
+        run.ob("R5", "strings compare by content", eq.site, (r1_, r2_) == (1, 0), witness={"two copies of one text": r1_, "texts differing in the last character": r2_})
+        okd, wit = True, []
+        for ans in (1, 0):
+            r, seen = fold_equals("double", "double", 0, 0, (), False, dbl=ans)
+            wit.append({"doubles_equal answers": ans, "equals": r, "asked": [tuple(x[1:]) for x in seen]})
+            i_v, i_t = MEMBERS.index("doubleValue_.value"), MEMBERS.index("doubleValue_.tolerance")
+            okd = okd and r == ans and [tuple(x[1:]) for x in seen] == [(1000 + i_v, 2000 + i_v, 1000 + i_t)]
+        run.ob("R5", "doubles: (this value, other value, THIS tolerance) -> doubles_equal (NaN/Inf classes decided in C03.R2)", eq.site, okd, witness=wit,
+               what="" if okd else "the expectation's own tolerance is not what reaches doubles_equal")
+        okb, wit = True, []
+        i_b = MEMBERS.index("memoryBufferValue_")
+        for sizes, mc in (((3, 4), 0), ((4, 3), 0), ((3, 3), 0), ((3, 3), 1), ((3, 3), -1), ((0, 0), 0)):
+            r, seen = fold_equals("const unsigned char*", "const unsigned char*", 0, 0, (), False, sizes=sizes, memcmp=mc)
+            asked = [tuple(x[1:]) for x in seen if x[0] == "MemCmp"]
+            want = 1 if sizes[0] == sizes[1] and mc == 0 else 0
+            good = r == want and (sizes[0] != sizes[1] or asked == [(1000 + i_b, 2000 + i_b, sizes[0])])
+            wit.append({"sizes": sizes, "MemCmp answers": mc, "equals": r, "MemCmp asked": asked})
+            okb = okb and good
+        run.ob("R5", "buffers: sizes compared first, then MemCmp over that size", eq.site, okb, witness=wit)
+        oko, wit = True, []
+        i_o = MEMBERS.index("constObjectPointerValue_")
+        for comp, ans in ((500, 1), (500, 0), (0, 1)):
+            r, seen = fold_equals("MyType", "MyType", 0, 0, (), False, comparator=comp, cmp=ans)
+            asked = [tuple(x for x in e[1:] if isinstance(x, int)) for e in seen if e[0] == "isEqual"]
+            want = ans if comp else 0
+            wit.append({"comparator": comp, "isEqual answers": ans, "equals": r, "asked": asked})
+            oko = oko and r == want and (asked == [(500, 1000 + i_o, 2000 + i_o)] if comp else not asked)
+        run.ob("R5", "objects of a custom type: the installed comparator decides on (this object, other object); without a comparator they are different", eq.site, oko, witness=wit)
+    except Unknown as u:
+        run.broke("C09.R5: equals cannot be folded whole: %s" % u)
 
     # ---------------- R4 ---------------------------------------------------------
     def getter_check(gname, own, tags):
